@@ -28,7 +28,11 @@ def _numtok(line):
 
 def _leaf(o):
     lseq, rest = _numtok(o.line)
-    return dict(blk=False, seq=lex.limbs(int(o.sequence)), lseq=lex.limbs(lseq), sig=f"{o.uuid}|{rest}|{o.note!r}", items=[])
+    sig = f"{o.uuid}|{rest}|{o.note!r}"
+    inner = getattr(o, "items", None)
+    if inner and type(o).__name__ == "AddressAg":     # `group-object NAME` with the referenced group's members loaded: they are
+        sig += "|" + repr([(m.line, int(m.sequence)) for m in inner])    # not entries of THIS group, their numbers must stay
+    return dict(blk=False, seq=lex.limbs(int(o.sequence)), lseq=lex.limbs(lseq), sig=sig, items=[])
 
 
 def proj(obj):
@@ -46,7 +50,14 @@ def build(job):
     from cisco_acl import Acl, AceGroup, AddrGroup
     plat = job["plat"]
     if job["cls"] == "AddrGroup":
-        return AddrGroup(name="G", platform=plat, items=list(job["lines"]))
+        from cisco_acl import AddressAg
+        items = list(job["lines"])
+        for k in job.get("inner") or []:     # IOS: a member that references another group, with that group's members loaded
+            if plat == "ios" and k < len(items):
+                old = items[k].split()[0] if items[k].split()[0].isdigit() else ""
+                items[k] = AddressAg(f"{old} group-object INNER{k}".strip(), platform="ios",
+                                     items=[f"{10 * (j + 1)} host 10.9.{k}.{j + 1}" for j in range(2)])
+        return AddrGroup(name="G", platform=plat, items=items)
     if job["cls"] == "AceGroup":
         return AceGroup(platform=plat, items=list(job["lines"]))
     items = []
@@ -140,7 +151,7 @@ def from_tlc(rng, calls, tier, tid0):
                 if rng.random() < 0.3:
                     calls_.append((rng.choice([0, 10, 1, MAX]), rng.choice([1, 10, 0])))
                 jobs.append(dict(tid=t, cls=cls, plat=plat, lines=mk_lines(rng, sizes, old_mode, cls, plat), calls=calls_,
-                                 origin="tlc"))
+                                 origin="tlc", inner=[0] if (cls == "AddrGroup" and rng.random() < 0.3) else []))
                 t += 1
     return jobs
 
@@ -188,7 +199,7 @@ def random_jobs(rng, n, tid0):
                 s, d = rng.choice([0, 1, 10, 100, rng.randint(0, MAX)]), rng.choice([0, 1, 10, 100, -5, rng.randint(1, 2 ** 20)])
             calls.append((s, d))
         jobs.append(dict(tid=t, cls=cls, plat=plat, lines=mk_lines(rng, sizes, rng.choice(["none", "same", "mixed"]), cls, plat),
-                         calls=calls, origin="random"))
+                         calls=calls, origin="random", inner=[rng.randint(0, 3)] if (cls == "AddrGroup" and rng.random() < 0.3) else []))
         t += 1
     return jobs
 
